@@ -16,9 +16,17 @@ for m in sorted(glob.glob(os.path.join(root, "seeded", "*", "meta.json"))):
     d = json.load(open(m))
     srows.append(f"| {d['id']} | {' '.join(d['breaks'])} | {d.get('origin','')[:90]} | {d.get('caught_by','(see §12)')} |")
 seeded = "\n".join(srows)
+strows = ["| id | theorems (all axioms ⊆ {propext, Classical.choice, Quot.sound}) | correspondence families (quick-tier evaluations) | support executions (quick) | open findings | not proven / partial |", "|---|---|---|---|---|---|"]
+for ev in sorted(glob.glob(os.path.join(root, "evidence", "C*.json"))):
+    d = json.load(open(ev)); c = d["coverage"]; pid = d["property_id"]
+    openf = [f["id"] for f in kf if f["status"] == "open" and pid in f["properties"]]
+    fams = "; ".join(f"{x['family'].split('[')[0]} ({x['evaluations']})" for x in c.get("correspondence", []))
+    part = " / ".join(x[:140] for x in c.get("partial", []))[:420]
+    strows.append(f"| {pid} | {len(c.get('theorems', {}))} | {fams[:520]} | {c.get('support_programs', 0)} | {' '.join(openf) or '—'} | {part or '—'} |")
+status = "\n".join(strows)
 p = os.path.join(root, "DESIGN.md")
 s = open(p).read()
-for name, text in (("FINDINGS", findings), ("SEEDED", seeded)):
+for name, text in (("FINDINGS", findings), ("SEEDED", seeded), ("STATUS", status)):
     pat = re.compile(rf"(<!-- BEGIN {name} -->).*?(<!-- END {name} -->)", re.S)
     if pat.search(s):
         s = pat.sub(lambda m: m.group(1) + "\n" + text + "\n" + m.group(2), s)
